@@ -69,11 +69,15 @@ structure Inv (s : St) : Prop where
               ∧ (s.found u = false → s.ncreate (s.key u) = 0)
   r4'    : ∀ u, (s.pc u = .g4 ∨ s.pc u = .g5) → s.ncreate (s.key u) = 0
   r5     : ∀ c v, c < s.next → s.fnres c = some v → v ≠ 0 → s.ncreate (s.ekey c) = 1 ∧ s.inst (s.ekey c) = v
-  rets   : ∀ r ∈ s.rets, r.exec < s.next ∧ s.fnres r.exec = some r.val ∧ s.ekey r.exec = r.key
+  rets   : ∀ r ∈ s.rets, r.direct = false → r.exec < s.next ∧ s.fnres r.exec = some r.val ∧ s.ekey r.exec = r.key
+  -- the lookup in front of the flight (`Cfg.pre`): what it found is (and stays) the stored instance
+  pre4   : ∀ u, (s.pc u = .p2 ∨ s.pc u = .p3) → s.found u = true → s.res (s.key u) = some (s.loc u)
+  retsI  : ∀ r ∈ s.rets, r.val ≠ 0 → s.ncreate r.key = 1 ∧ s.inst r.key = r.val
+  retsD  : ∀ r ∈ s.rets, r.direct = true → r.val ≠ 0
   -- a panicking create
   cv0    : ∀ u, (s.pc u).noRes = true → s.cval (s.reg u) = 0
 
-theorem inv_init : Inv init := by
+theorem inv_init (cfg : Cfg) : Inv (init cfg) := by
   constructor <;> simp [init, PC.holdsLock, PC.inFlight, PC.preReg, PC.owns, PC.wgOne, PC.noRes, PC.stored, PC.waits, PC.after]
 
 macro "step_cases" hs:ident : tactic =>
@@ -293,6 +297,7 @@ theorem r3_step (h : Inv s) (hs : step s t x = some s') :
   have h3 := h.r4' t
   close_step hs
 
+set_option maxHeartbeats 1000000 in
 theorem r4_step (h : Inv s) (hs : step s t x = some s') :
     ∀ u, (s'.pc u = .g2 ∨ s'.pc u = .g3) → (s'.found u = true → s'.res (s'.key u) = some (s'.loc u))
       ∧ (s'.found u = false → s'.ncreate (s'.key u) = 0) := by
@@ -331,8 +336,8 @@ theorem r5_step (h : Inv s) (hs : step s t x = some s') :
   close_step hs
 
 theorem rets_step (h : Inv s) (hs : step s t x = some s') :
-    ∀ r ∈ s'.rets, r.exec < s'.next ∧ s'.fnres r.exec = some r.val ∧ s'.ekey r.exec = r.key := by
-  intro r hr
+    ∀ r ∈ s'.rets, r.direct = false → r.exec < s'.next ∧ s'.fnres r.exec = some r.val ∧ s'.ekey r.exec = r.key := by
+  intro r hr hd
   have h1 := h.rets r
   have h2 := h.owns t
   have h3 := h.nores t
@@ -344,15 +349,48 @@ theorem rets_step (h : Inv s) (hs : step s t x = some s') :
   have h11 := h.owns (s.leader (s.reg t))
   close_step hs
 
+theorem pre4_step (h : Inv s) (hs : step s t x = some s') :
+    ∀ u, (s'.pc u = .p2 ∨ s'.pc u = .p3) → s'.found u = true → s'.res (s'.key u) = some (s'.loc u) := by
+  intro u hu hf
+  have h1 := h.pre4 u
+  have h2 := h.r2 t
+  rcases hr : s.res (s.key t) with _ | v
+  · close_step hs
+  · close_step hs
+
+theorem retsI_step (h : Inv s) (hs : step s t x = some s') :
+    ∀ r ∈ s'.rets, r.val ≠ 0 → s'.ncreate r.key = 1 ∧ s'.inst r.key = r.val := by
+  intro r hr hv
+  have h1 := h.retsI r
+  have h2 := h.owns t
+  have h3 := h.pre4 t
+  have h4 := h.stored t
+  have h5 := h.waits t
+  have h6 := h.woken t
+  have h7 := h.r4' t
+  have h8 := h.r1 (s.key t) (s.loc t)
+  have h9 := h.done (s.reg t)
+  have h10 := h.stored (s.leader (s.reg t))
+  have h11 := h.owns (s.leader (s.reg t))
+  have h12 := h.r5 (s.reg t) (s.cval (s.reg t))
+  close_step hs
+
+theorem retsD_step (h : Inv s) (hs : step s t x = some s') : ∀ r ∈ s'.rets, r.direct = true → r.val ≠ 0 := by
+  intro r hr hd
+  have h1 := h.retsD r
+  have h3 := h.pre4 t
+  have h8 := h.r1 (s.key t) (s.loc t)
+  close_step hs
+
 theorem inv_step (h : Inv s) (hs : step s t x = some s') : Inv s' :=
   ⟨lock_step h hs, flight_step h hs, prereg_step h hs, owns_step h hs, wg1_step h hs, wg0_step h hs,
    nores_step h hs, tmpres_step h hs, stored_step h hs, calls_step h hs, waits_step h hs, woken_step h hs,
    done_step h hs, lretlt_step h hs, writer_step h hs, r1_step h hs, r2_step h hs, r2'_step h hs, r3_step h hs,
-   r4_step h hs, r4'_step h hs, r5_step h hs, rets_step h hs, cv0_step h hs⟩
+   r4_step h hs, r4'_step h hs, r5_step h hs, rets_step h hs, pre4_step h hs, retsI_step h hs, retsD_step h hs, cv0_step h hs⟩
 
 theorem inv_reach {s : St} (h : Reach s) : Inv s := by
   induction h with
-  | init => exact inv_init
+  | init cfg => exact inv_init cfg
   | step t x _ hs ih => exact inv_step ih hs
 
 theorem step_flow (hs : step s t x = some s') : s'.pc t ∈ succ (s.pc t) ∧ ∀ u, u ≠ t → s'.pc u = s.pc u := by
